@@ -219,6 +219,10 @@ def evalE (cfg : Cfg W) : Nat → Expr → Env → W → Except String (Val × W
         if 0 ≤ k ∧ k.toNat < l.length then .ok (l.getD k.toNat .nil, w)
         else .error s!"panic: index out of range [{k}] with length {l.length}"
       | .strct fs, k => .ok ((recGet fs (keyStr k)).getD .nil, w)
+      | .str s, .int k =>
+        -- byte of an (ASCII) string
+        if 0 ≤ k ∧ k.toNat < s.length then .ok (.int (s.toList.getD k.toNat ' ').toNat, w)
+        else .error s!"panic: index out of range [{k}] with length {s.length}"
       | .nil, _ => .ok (.nil, w)
       | _, _ => .error "index"
     | .slice a lo hi => do
@@ -235,6 +239,18 @@ def evalE (cfg : Cfg W) : Nat → Expr → Env → W → Except String (Val × W
         | .int lo, .int hi =>
           if 0 ≤ lo ∧ lo ≤ hi ∧ hi.toNat ≤ l.length then .ok (.list ((l.drop lo.toNat).take (hi.toNat - lo.toNat)), w)
           else .error s!"panic: slice bounds out of range [{lo}:{hi}] with capacity {l.length}"
+        | _, _ => .error "slice bounds"
+      | .str s =>
+        let (lov, w) ← match lo with
+          | some x => do let (v, w) ← evalE cfg fuel x env w; pure (v, w)
+          | none => pure (Val.int 0, w)
+        let (hiv, w) ← match hi with
+          | some x => do let (v, w) ← evalE cfg fuel x env w; pure (v, w)
+          | none => pure (Val.int s.length, w)
+        match lov, hiv with
+        | .int lo, .int hi =>
+          if 0 ≤ lo ∧ lo ≤ hi ∧ hi.toNat ≤ s.length then .ok (.str (String.ofList ((s.toList.drop lo.toNat).take (hi.toNat - lo.toNat))), w)
+          else .error s!"panic: slice bounds out of range [{lo}:{hi}] with length {s.length}"
         | _, _ => .error "slice bounds"
       | _ => .error "slice of non-list"
     | .call (.sel (.call g gargs) m) args => do
